@@ -139,7 +139,7 @@ func verif_ControlManager_Add(cm *ControlManager, runID string, ctl *Control, q 
 // Del: late cleanup of an old session never removes the new one.
 //
 //verif:contract (*~/server.ControlManager).Del
-//verif:props C12
+//verif:props C12 C10
 func verif_ControlManager_Del(cm *ControlManager, runID string, ctl *Control, q string) {
 	tab0 := verif.Snap(cm.ctlsByRunID)
 	cm.Del(runID, ctl)
@@ -433,6 +433,10 @@ func verif_GetWorkConn(ctl *Control) {
 	}
 	if err == nil {
 		verif.Ensures(verif.Called("recv"), "connection_comes_from_the_pool")
+		// "a closed pool yields an error": whichever receive produced the result,
+		// it delivered a value that was sent, not the zero value of a closed pool
+		// (the caller dereferences the connection in a goroutine of its own)
+		verif.Ensures(verif.RetBool("recv", 0), "closed_pool_is_an_error_never_a_nil_connection")
 		verif.Ensures(verif.CallCount(evSend) >= 1 && verif.CallCount(evSend) <= 2, "taken_connection_is_replaced")
 	}
 	_ = wc
